@@ -133,6 +133,23 @@ def jobs(tier):
                   slices=[dj, rb, n1], replay=replay_c17,
                   domain="T = long long: every distance in [0,2^40], weight in [0,2^20], any adjacency-list length; one arbitrary neighbour other than the node itself",
                   expect=[r'w_relax\.postcondition', r'assigns']))
+    # ---------------- johnsons: loop body for one source k, dijkstra behind a contract (T -> VT)
+    jo = slice_func(SP, r'^void johnsons\(\s*$', "johnsons")
+    hdr4, jb = fragment_loop(jo, r'for\(unsigned k=0;k<n;k\+\+\)', "johnsons [loop body for one source]")
+    jb_text = re.sub(r'\bT\b', 'VT', body_continue_to_return(jb)).replace('std::numeric_limits<VT>::max()', 'VERIF_TMAX')
+    jb_cxx = (base + "#define VT long long\n#define VERIF_TMAX (1LL << 40)\n"
+              'extern "C" void w_dijkstra(unsigned s, void *vs, long long *d);\n'
+              "template <class T> struct PairNode;\n"
+              "namespace shortest_paths {\ntemplate <typename T>\n" + n1.text + "\n"
+              "// dijkstra(s, vs, d) behind a contract (the call in the fragment would need template argument deduction, which the front end lacks)\n"
+              "static void dijkstra(unsigned const s, std::vector<Node<VT> > & vs, VT *d) { w_dijkstra(s, (void *)&vs, d); }\n"
+              "static void verif_johnsons_body(unsigned const n, VT **D, std::vector<Node<VT> > & vs, unsigned k)\n" + jb_text + "\n}\n"
+              'extern "C" void w_johnsons_body(unsigned n, long long **D, void *vs, unsigned k) { shortest_paths::verif_johnsons_body(n, D, '
+              '*(std::vector<shortest_paths::Node<VT> > *)vs, k); }\n')
+    js.append(Job("johnsons_row_body", "U", spec, "h_johnsons_body", cxx=jb_cxx, enforce="w_johnsons_body", replace=["w_dijkstra"], defines=["JOB_johnsons_body"],
+                  slices=[jo, jb], replay=replay_c17, flags=["--object-bits", "12"], unwind=10,
+                  domain="one arbitrary source k of a graph with up to 8 nodes (row k valid), any adjacency lists; dijkstra replaced by a ghost-cell contract",
+                  expect=[r'w_johnsons_body\.postcondition']))
     return js
 
 
